@@ -45,7 +45,7 @@ class Resolver:
         for i, rec in enumerate(self.records):
             prio, weight, spelling = rec[:3]
             host = rec[3] if len(rec) > 3 else i  # several records may name the same (multi-homed) host
-            name = f"dc{host}.domain.test"
+            name = target_name(host)
             target = dns.name.from_text(name + ".") if spelling == 0 else dns.name.from_text(name, origin=None)
             out.append(dns.rdtypes.IN.SRV.SRV(dns.rdataclass.IN, dns.rdatatype.SRV, prio, weight, 1000 + i, target))
         self.world.stats["dns"] += 1
@@ -147,6 +147,12 @@ def run_unreachable(case) -> dict:
             "probes": {"after_connection_failure": 1}, "vtime_ns": world.stats.get("vtime_ns", 0)}
 
 
+def target_name(host: int) -> str:
+    """Host name of DC number ``host`` as its SRV record spells it (the answer's spelling is what callers get back: case kept,
+    IDNA A-labels left as they are)."""
+    return ("dc{h}.domain.test", "DC{h}.Domain.TEST", "dc{h}.xn--bcher-kva.example", "xn--mnchen-3ya.dc{h}.domain.test")[host % 4].format(h=host)
+
+
 def run(case) -> dict:
     """case: [records as indices into RECORD_TYPES, domain or None]"""
     import dpapi_ng._dns as ddns
@@ -216,7 +222,11 @@ def run(case) -> dict:
         if not (0 <= i < len(records)) or records[i][0] != r.priority or records[i][1] != r.weight:
             viol = V(fl, "fields", f"port/weight/priority {r.port}/{r.weight}/{r.priority} do not belong to one record of the answer")
             break
-        exp_t = f"dc{records[i][3] if len(records[i]) > 3 else i}.domain.test"
+        exp_t = target_name(records[i][3] if len(records[i]) > 3 else i)
+        if "xn--" in exp_t:
+            probes_extra["idna_a_label_target"] = 1
+        if exp_t != exp_t.lower():
+            probes_extra["mixed_case_target"] = 1
         if r.target != exp_t:
             viol = V(fl, "target", f"target {r.target!r} (expected {exp_t!r} without trailing dot)")
             break
@@ -238,12 +248,12 @@ class C20(common.Check):
             "length 5 = 1.9 M exhaustively in thorough, sampled in quick), each through lookup_dc and async_lookup_dc; answers of 2..3 records in which "
             "several records name the same host (all host assignments); resolver faults (the first 1..2 queries time out or return NXDOMAIN and "
             "the caller repeats the lookup in the same process); the same name looked up twice while the answer set changed in between; bursts of 2..9 async lookups in flight at once on one "
-            "event loop and then again on a second event loop of the same process; a lookup after a call whose connection to the selected DC was refused; records are real dnspython Answer objects whose TTL runs out between two lookups; the client host's own DNS suffix differs from the AD domain. Non-trivial = more than "
+            "event loop and then again on a second event loop of the same process; a lookup after a call whose connection to the selected DC was refused; target host names in lower case, mixed case and with IDNA A-labels (xn--) must come back as the record spells them; records are real dnspython Answer objects whose TTL runs out between two lookups; the client host's own DNS suffix differs from the AD domain. Non-trivial = more than "
             "one record or a trailing-dot target; distinct = distinct (sequence, domain).")
     components = {"selection code": "real (dpapi_ng._dns lookup_dc / async_lookup_dc / _get_highest_answer)", "resolver": "stub node returning real dnspython SRV rdata",
                   "async runtime": "simulated loop"}
     assumptions = ["no DNS wire format is simulated: dnspython is a dependency, not the system under test", "ties between equal (priority, weight) records are not judged beyond sync == async"]
-    required_fired = ("trailing_dot", "relative_target", "ties", "dns_reorder", "repeated_target", "after_resolver_fault", "dns_fault", "after_earlier_lookup", "async_bursts", "after_connection_failure")
+    required_fired = ("trailing_dot", "relative_target", "ties", "dns_reorder", "repeated_target", "after_resolver_fault", "dns_fault", "after_earlier_lookup", "async_bursts", "after_connection_failure", "idna_a_label_target", "mixed_case_target")
 
     def exhaustive(self, tier):
         return True
